@@ -333,6 +333,8 @@ M('F40R', 'src/xdoctest/doctest_example.py', """                        found_li
                     self.failed_tb_lineno = found_lineno""", ['C09'], 'F40 repair reverted: an error without a doctest frame escapes run()')
 M('F41R', 'src/xdoctest/utils/util_import.py', """        elif sys.path[self.index] != self.dpath:  # nocover""", """        if sys.path[self.index] != self.dpath:  # nocover""", ['C12'], 'F41 repair reverted: sys.path shrinking inside the context raises IndexError on exit')
 M('F33bR', 'src/xdoctest/static_analysis.py', """        pt = ast.parse(self.source.lstrip('\\ufeff'))""", """        pt = ast.parse(self.source.encode('utf8'))""", ['C16'], 'F33b repair reverted: the text of a module with an encoding cookie is decoded twice')
+M('F42R', 'src/xdoctest/static_analysis.py', """            while (linex < len(self.sourcelines) and
+                   not re.match(pattern, self.sourcelines[linex])):""", """            while not re.match(pattern, self.sourcelines[linex]):""", ['C08'], 'F42 repair reverted: the search for the def line of a decorated function has no bound')
 M('F17R', 'src/xdoctest/doctest_example.py', """                part_directive = None
                 try:
                     try:
